@@ -30,6 +30,12 @@ Definition possible (sizes rooms : list nat) : list (list nat) :=
 
 (* room kinds: (name id, capacity, quantity), in the order of the rooms file after read() *)
 Definition kind := (nat * nat * nat)%type.
+(* io::rooms::read: the kinds of the file are sorted by capacity (stable, ascending) and the list is reversed: descending capacities,
+   kinds of equal capacity in reverse file order *)
+Definition kind_cap (k : kind) : nat := snd (fst k).
+Fixpoint insert_kind (x : kind) (l : list kind) : list kind :=
+  match l with [] => [x] | y :: t => if kind_cap x <? kind_cap y then x :: l else y :: insert_kind x t end.
+Definition kinds_read (raw : list kind) : list kind := rev (fold_left (fun acc x => insert_kind x acc) raw []).
 Definition rooms_of_kinds (ks : list kind) : list nat := flat_map (fun k : kind => let '(_, cap, q) := k in repeat cap q) ks.
 Definition kind_names (ks : list kind) (sizes : list nat) : list (list nat) :=
   map (fun l => flat_map (fun r => map (fun k : kind => fst (fst k))
